@@ -149,12 +149,14 @@ def g_general_nonlinear_scale_list(n: int) -> bool:
 '''
     src += '''
 _sw = blank(ex.ic.SineWaves1d.__init__, truncate=True, keep_guards=3)
-def g_sinewaves_options(offset: int, std_one: bool, max_one: bool) -> bool:
+_OFFS = [0.0, 1.0, -1.0, 0.5, -0.25, 0]
+def g_sinewaves_options(k: int, std_one: bool, max_one: bool) -> bool:
     """
+    pre: 0 <= k <= 5
     post: __return__ == True
     """
-    rejected = _raises(_sw, SimpleNamespace(), 1.0, (1.0,), (1,), (0.0,), offset=offset, std_one=std_one, max_one=max_one)
-    return rejected == ((offset != 0 and std_one) or (std_one and max_one))
+    rejected = _raises(_sw, SimpleNamespace(), 1.0, (1.0,), (1,), (0.0,), offset=_OFFS[k], std_one=std_one, max_one=max_one)
+    return rejected == ((k not in (0, 5) and std_one) or (std_one and max_one))
 
 _disc = blank(ex.ic.Discontinuities.__init__, truncate=True, keep_guards=2)
 def g_discontinuities_options(zero_mean: bool, std_one: bool, max_one: bool) -> bool:
